@@ -25,7 +25,9 @@ Q = f"{MS}:RunEngineSimulator"
 TRUSTED = ["A-LOG: LOGGER.debug / warn are effect-free", "the plan is an arbitrary generator obeying the generator protocol; messages are Msg tuples (truthy)",
            "handler predicates / runnables are arbitrary functions of the message (abstract); they do not raise",
            "maybe_await(x) awaits x when it is awaitable and returns it otherwise (bluesky.utils.maybe_await is executed)"]
-NOT_DECIDED = "the convenience add_*_handler methods built on add_handler; fire_callback bookkeeping"
+NOT_DECIDED = ("the convenience add_*_handler methods built on add_handler; fire_callback bookkeeping; handlers that raise - observation (outside the "
+               "statement, which speaks of handlers' results): a StopIteration escaping a handler, e.g. the one add_callback_handler_for_multiple builds once "
+               "its documents are used up, is taken by simulate_plan for the end of the plan (messages truncated, return_value None)")
 _SEEN = {}
 
 
